@@ -164,8 +164,28 @@ def check_case(run, members, fbp, extra_bp, exit_on_exception):
                 r2 = judge_solve([b, b2], "solve after push+assert")
                 port.pop()
                 if r2 is not None:
-                    judge_solve([b], "solve after pop")
+                    r3 = judge_solve([b], "solve after pop")
                     run.cls("full-cycle")
+                    if r3 is not None and oks and not exit_on_exception:
+                        # one-shot queries back to back, then a two-level pop: the assertion stack the members see
+                        # must be the user's
+                        ne2 = env.formula_manager.Not(e2)
+                        for q, qb in ((e2, b2), (ne2, ("NOT", (), (b2,)))):
+                            out = call_with_deadlock_watch(lambda q=q: port.is_sat(q))
+                            if out[0] == "ok" and out[1] != brute([b, qb]):
+                                run.fail({"subcheck": "portfolio:is_sat-verdict"}, case,
+                                         "is_sat(%s) returned %r with the assertion %s" % (show(qb, 80), out[1], show(b, 80)))
+                            elif out[0] == "deadlock":
+                                run.fail({"subcheck": "portfolio:blocks-forever", "all_fail": False}, case, "is_sat blocks")
+                        judge_solve([b], "solve after two is_sat")
+                        port.push()
+                        port.add_assertion(e2)
+                        port.push()
+                        port.add_assertion(ne2)
+                        judge_solve([b, b2, ("NOT", (), (b2,))], "solve inside two levels")
+                        port.pop(2)
+                        judge_solve([b], "solve after pop(2)")
+                        run.cls("oneshot-and-pop2-cycle")
     finally:
         try:
             if port is not None:
@@ -205,6 +225,8 @@ def check_case(run, members, fbp, extra_bp, exit_on_exception):
         run.cls("all-members-fail")
     if near_tie:
         run.cls("equal-delays")
+    if any(d >= 1000 for (d, _) in members):
+        run.cls("slow-survivor")
 
 
 def shard(shard, seed, n):
@@ -227,6 +249,11 @@ def shard(shard, seed, n):
             d = rnd.choice(DELAYS[:3])
             members = tuple((d, "ok") for _ in range(k))
             extra = ("NOT", (), (f,))
+        elif rnd.random() < 0.12:
+            # the only answering member is much slower than the failures of the others
+            members = tuple([(rnd.choice([1200, 1800]), "ok")] +
+                            [(rnd.choice([0, 5, 20]), rnd.choice(["crash", "exit", "die-at-start", "garbage"])) for _ in range(k - 1)])
+            members = tuple(rnd.sample(list(members), len(members)))
         check_case(run, members, f, extra, rnd.random() < 0.25)
     drive(body, st.randoms(use_true_random=True), n, derive_seed(seed, "c19", shard))
     return run
@@ -245,6 +272,8 @@ def main():
     chk.floor("all-members-fail", 15)
     chk.floor("model-checked", 15)
     chk.floor("full-cycle", 15)
+    chk.floor("oneshot-and-pop2-cycle", 10)
+    chk.floor("slow-survivor", 3)
     return chk.finish()
 
 
